@@ -10,6 +10,15 @@ def U(name, src, flavour='asan', quick=None, thorough=None, **kw):
 TRUSTED = ['g++ 12 / clang 14 and their ASan/UBSan runtimes', 'the choice-sequence engine in harness/engine.h (generation, shrinking, replay)']
 
 PROPERTIES = {
+ 'C12': dict(
+    level='exploration', exhaustive_claim=True,
+    rule='exhaustive sweeps over all UTF-8 strings of length <= 3, 4-byte strings by class, all UTF-16 single units and surrogate pairs, all UTF-32 units, plus generated ill-formed chunks embedded in valid text; oracle = tiling over independent ref_utf',
+    assumptions=TRUSTED + ['ref_utf.h (Unicode ch.3 Table 3-7), self-tested at every start', 'tiling oracle accepts both the library segmentation convention (lead byte + declared tails) and maximal-subpart segmentation'],
+    units=[U('c12_sweep', 'c12_utf_illformed.cpp', flavour='opt', needs_lib=False, args=['--only-sweeps'],
+             quick=dict(shards=16, min_eval=10000000), thorough=dict(shards=16, min_eval=10000000)),
+           U('c12_pbt', 'c12_utf_illformed.cpp', flavour='asan', needs_lib=False, args=['--no-sweeps'],
+             quick=dict(cases=4000, shards=8, min_eval=10000), thorough=dict(cases=150000, shards=16, min_eval=100000))]),
+
  'C11': dict(
     level='exploration', exhaustive_claim=True,
     rule='exhaustive sweep over all 1,112,064 scalar values x all direct encoder operations x both policies, plus generated sequences; oracle = independent ref_utf',
